@@ -10,9 +10,12 @@ Oracle: independent check of the property on the real code (values from the held
 held events tracked with the reference filter semantics of pmodel).
 """
 import atexit
+import copy
 import json
 import math
 import os
+import pickle
+import random as pyrandom
 import shutil
 import tempfile
 import time
@@ -64,6 +67,8 @@ def translate(ctx):
 def enc_arg(a):
     if a is None:
         return {"t": "none"}
+    if isinstance(a, OneShot):
+        return {"t": "oneshot", "kind": a.kind, "v": a.values}
     if isinstance(a, np.ndarray):
         return {"t": "ndarray", "v": [int(x) for x in a]}
     if isinstance(a, tuple):
@@ -81,6 +86,8 @@ def dec_arg(d):
     t = d["t"]
     if t == "none":
         return None
+    if t == "oneshot":
+        return OneShot(d["kind"], d["v"])
     if t == "ndarray":
         return np.array(d["v"])
     if t == "tuple":
@@ -104,17 +111,50 @@ def dec_calls(js):
 
 class Spec6(rmodel.FileSpec):
     """FileSpec whose file-level text varies from file to file (third Oscar header line, JETSCAPE version tag), so that
-    anything remembered from an earlier file under the same path shows"""
+    anything remembered from an earlier file under the same path shows; text devices: CRLF line ends, non-ASCII
+    characters in the free-text parts (units line, version line, end-line tail, JETSCAPE first line), trailing blanks
+    on lines whose text is free (never on particle or end lines: the clean loaders reject those)"""
     version = "SMASH-3.1"
     jver = "v2"
+    crlf = False
+    nonascii = False
+    trail = False
 
     def lines(self):
         L = super().lines()
         if self.is_jetscape():
             L[0] = L[0].replace("\tv2\t", "\t" + self.jver + "\t")
+            if self.nonascii:
+                L[0] += " é—µ"
+            if self.trail:
+                L[0] += "  "
+                L[-1] += " \t "
         else:
             L[2] = "# " + self.version
+            if self.nonascii:
+                L[1] += " µm Größe —"
+                L[2] += " ü"
+                L = [l.replace("scattering_projectile_target", "streuung_projektil_zïel") if " end " in l else l for l in L]
+            if self.trail:
+                L[1] += " "
+                L[2] += "  "
         return L
+
+    def text(self):
+        nl = "\r\n" if self.crlf else "\n"
+        return nl.join(self.lines()) + (nl if self.trailing_nl else "")
+
+    def model_text(self):
+        """what Python's text layer (universal newlines) delivers to the loaders: the model reads this"""
+        return "\n".join(self.lines()) + ("\n" if self.trailing_nl else "")
+
+    def clone(self, events=None, impacts=None):
+        c = Spec6(self.kind, list(self.cols), self.events if events is None else events, labels=None,
+                  impacts=list(self.impacts) if impacts is None else impacts, tab_headers=self.tab_headers,
+                  trailing_nl=self.trailing_nl, sigma=tuple(self.sigma))
+        for a in ("version", "jver", "crlf", "nonascii", "trail"):
+            setattr(c, a, getattr(self, a))
+        return c
 
 
 VERSIONS = ["SMASH-3.1", "SMASH-3.1rc-23-g59a05e65f", "SMASH-3.2", "SMASH-2.0.2-7", "SMASH-3.1-220-ge0fbc0856"]
@@ -132,9 +172,82 @@ def as_spec6(spec, version=None, jver=None):
     return spec
 
 
+COPY_MODES = ("copy", "deepcopy", "pickle")
+
+
+def variant(obj, mode):
+    """the object, or a copy of it made the way `mode` says: everything observable must be the same"""
+    if mode == "copy":
+        return copy.copy(obj)
+    if mode == "deepcopy":
+        return copy.deepcopy(obj)
+    if mode == "pickle":
+        return pickle.loads(pickle.dumps(obj))
+    return obj
+
+
+class OneShot:
+    """an argument handed over as a one-shot iterable (generator / iter(list) / map); `values` is what it yields"""
+
+    def __init__(self, kind, values):
+        self.kind, self.values = kind, [int(v) for v in values]
+
+    def make(self):
+        if self.kind == "gen":
+            return (v for v in self.values)
+        if self.kind == "iter":
+            return iter(self.values)
+        if self.kind == "map":
+            return map(int, self.values)
+        return np.array(self.values, dtype=object)
+
+
+def real_args(args):
+    return tuple(a.make() if isinstance(a, OneShot) else a for a in args)
+
+
+def ref_args(args):
+    return tuple(list(a.values) if isinstance(a, OneShot) else a for a in args)
+
+
 class Scenario:
-    def __init__(self, spec, events=None, ctor=None, ops=()):
+    """dev = devices that must not change anything observable:
+       copies: {'load'|'write'|'reread': 'copy'|'deepcopy'|'pickle'} — the object is replaced by such a copy after loading
+               / before writing / after reading back;
+       env: True — every call runs with cwd = the directory of the files and BARE relative file names, non-default numpy
+            print options, np.seterr(all='warn'), advanced `random` / `np.random` global states"""
+
+    def __init__(self, spec, events=None, ctor=None, ops=(), dev=None):
         self.spec, self.events, self.ctor, self.ops = spec, events, ctor, list(ops)
+        self.dev = dict(dev or {})
+
+    def replace(self, **kw):
+        d = dict(spec=self.spec, events=self.events, ctor=self.ctor, ops=self.ops, dev=self.dev)
+        d.update(kw)
+        return Scenario(**d)
+
+    def devices(self):
+        """names of the active devices (text devices live in the spec)"""
+        out = [k for k in ("copies", "env") if self.dev.get(k)]
+        out += [a for a in ("crlf", "nonascii", "trail") if getattr(self.spec, a, False)]
+        if any(isinstance(a, OneShot) for _, args in (self.ops or []) for a in args):
+            out.append("iterators")
+        return out
+
+    def without(self, name):
+        if name in ("copies", "env"):
+            return self.replace(dev={k: v for k, v in self.dev.items() if k != name})
+        if name == "iterators":
+            return self.replace(ops=[(n, ref_args(a)) for n, a in self.ops])
+        sp = self.spec.clone()
+        setattr(sp, name, False)
+        return self.replace(spec=sp)
+
+    def plain(self):
+        c = self
+        for n in self.devices():
+            c = c.without(n)
+        return c
 
     @property
     def cls(self):
@@ -144,9 +257,12 @@ class Scenario:
         s = self.spec
         return dict(spec=dict(kind=s.kind, cols=list(s.cols), events=s.events, labels=s.labels, impacts=s.impacts,
                               tab_headers=s.tab_headers, trailing_nl=s.trailing_nl, sigma=list(s.sigma),
-                              version=getattr(s, "version", "SMASH-3.1"), jver=getattr(s, "jver", "v2")),
+                              version=getattr(s, "version", "SMASH-3.1"), jver=getattr(s, "jver", "v2"),
+                              crlf=getattr(s, "crlf", False), nonascii=getattr(s, "nonascii", False),
+                              trail=getattr(s, "trail", False)),
                     events=list(self.events) if isinstance(self.events, tuple) else self.events,
-                    events_is_tuple=isinstance(self.events, tuple), ctor=enc_calls(self.ctor), ops=enc_calls(self.ops))
+                    events_is_tuple=isinstance(self.events, tuple), ctor=enc_calls(self.ctor), ops=enc_calls(self.ops),
+                    dev=self.dev)
 
     @staticmethod
     def from_json(d):
@@ -154,13 +270,20 @@ class Scenario:
         spec = Spec6(s["kind"], s["cols"], s["events"], labels=s["labels"], impacts=s["impacts"],
                      tab_headers=s["tab_headers"], trailing_nl=s["trailing_nl"], sigma=tuple(s["sigma"]))
         spec.version, spec.jver = s.get("version", "SMASH-3.1"), s.get("jver", "v2")
+        spec.crlf, spec.nonascii, spec.trail = s.get("crlf", False), s.get("nonascii", False), s.get("trail", False)
         ev = tuple(d["events"]) if d.get("events_is_tuple") else d["events"]
-        return Scenario(spec, ev, dec_calls(d["ctor"]), dec_calls(d["ops"]) or [])
+        return Scenario(spec, ev, dec_calls(d["ctor"]), dec_calls(d["ops"]) or [], d.get("dev"))
 
     def describe(self):
-        return dict(kind=self.spec.kind, sizes=[len(e) for e in self.spec.events], events=self.events,
-                    ctor=None if self.ctor is None else [n for n, _ in self.ctor], ops=[n for n, _ in self.ops])
+        out = dict(kind=self.spec.kind, sizes=[len(e) for e in self.spec.events], events=self.events,
+                   ctor=None if self.ctor is None else [n for n, _ in self.ctor], ops=[n for n, _ in self.ops])
+        if self.devices():
+            out["devices"] = {n: (self.dev.get(n, True)) for n in self.devices()}
+        return out
 
+
+TEXT_OK = {}      # filled by the probe of the tree under test (is UTF-8 text accepted at all?)
+ITER_OK = []      # one-shot iterable kinds the tree under test accepts as a filter argument (probe)
 
 LONG_TOKENS = ["0.123456789012", "123456.789", "9.87654321e-05", "-3.14159265358979", "1234567.5", "0.1", "1e-07",
                "99999.95", "0.000123456789", "2.50000001", "1e+22", "5e-324", "-0.0"]
@@ -189,7 +312,22 @@ def gen_spec(rng):
     as_spec6(spec, rng.choice(VERSIONS), rng.choice(JVERS))
     spec.sigma = rng.choice(SIGMAS)
     off = rng.choice([0.0, 0.0, 0.125, 0.25, 3.0, 7.5])
-    spec.impacts = ["%.3f" % (off + 0.5 * i) for i in range(len(spec.events))]
+    n = len(spec.events)
+    r = rng.random()
+    if r < 0.3:
+        # plain integers that coincide with event numbers of this file (same literal form as the labels)
+        vals = list(range(n)) if rng.random() < 0.5 else rng.sample(range(n + 1), n)
+        spec.impacts = [str(v) for v in vals]
+    elif r < 0.4:
+        spec.impacts = ["%.1e" % (off + 0.5 * i + 1) for i in range(n)]
+    else:
+        spec.impacts = ["%.3f" % (off + 0.5 * i) for i in range(n)]
+    if rng.random() < 0.12:
+        spec.crlf = True
+    if TEXT_OK.get("nonascii", True) and rng.random() < 0.12:
+        spec.nonascii = True
+    if rng.random() < 0.12:
+        spec.trail = True
     return spec
 
 
@@ -226,6 +364,7 @@ def sibling_spec(rng, spec):
         events.append(ev)
     sib = Spec6(spec.kind, list(spec.cols), events, tab_headers=spec.tab_headers)
     sib.version, sib.jver = getattr(spec, "version", "SMASH-3.1"), getattr(spec, "jver", "v2")
+    sib.nonascii, sib.trail, sib.crlf = (getattr(spec, a, False) for a in ("nonascii", "trail", "crlf"))
     sib.sigma = rng.choice([x for x in SIGMAS if x != tuple(spec.sigma)])
     off = rng.choice([0.375, 1.125, 4.0])
     sib.impacts = ["%.3f" % (off + 0.5 * i) for i in range(len(events))]
@@ -250,7 +389,16 @@ def gen_scenario(rng, spec=None):
             ctor = ctor[:1]
     nops = rng.choice([0, 0, 1, 1, 2, 3])
     ops = gen_calls(rng, spec, cls, nops)
-    return Scenario(spec, events, ctor, ops)
+    if ITER_OK:
+        ops = [(n, (OneShot(rng.choice(ITER_OK), a[0]),)) if (n in pmodel.SPECIES or n == "particle_status")
+               and isinstance(a[0], (list, tuple, np.ndarray)) and rng.random() < 0.5 else (n, a) for n, a in ops]
+    dev = {}
+    if rng.random() < 0.3:
+        dev["copies"] = {k: rng.choice(COPY_MODES) for k in ("load", "write", "reread") if rng.random() < 0.6} or \
+            {"write": rng.choice(COPY_MODES)}
+    if rng.random() < 0.25:
+        dev["env"] = True
+    return Scenario(spec, events, ctor, ops, dev)
 
 
 # ----------------------------------------------------------------------------- reference semantics of the filters
@@ -348,6 +496,42 @@ def write_file(text):
     return path
 
 
+class EnvGuard:
+    """runs one call of the code under test; afterwards cwd, np.geterr() and the global states of `random` and
+    `np.random` must be what they were at the call.  `active`: the call runs in `cwd` (bare relative file names), with
+    non-default numpy print options, np.seterr(all='warn') and advanced global random states."""
+
+    def __init__(self, active, cwd):
+        self.active, self.cwd, self.changed = active, cwd, []
+
+    def __enter__(self):
+        self.saved = (os.getcwd(), pyrandom.getstate(), np.random.get_state(), np.geterr(), np.get_printoptions())
+        if self.active:
+            os.chdir(self.cwd)
+            np.set_printoptions(precision=2, threshold=3, edgeitems=1, linewidth=30, suppress=True, sign="+")
+            np.seterr(all="warn")
+            pyrandom.seed(12345)
+            pyrandom.random()
+            np.random.seed(54321)
+            np.random.random(3)
+        self.at_call = (os.getcwd(), pyrandom.getstate(), np.random.get_state(), np.geterr())
+        return self
+
+    def __exit__(self, *exc):
+        now = (os.getcwd(), pyrandom.getstate(), np.random.get_state(), np.geterr())
+        names = ("cwd", "random state", "np.random state", "np.geterr()")
+        for nm, a, b in zip(names, self.at_call, now):
+            same = a == b if nm != "np.random state" else (a[0] == b[0] and np.array_equal(a[1], b[1]) and a[2:] == b[2:])
+            if not same:
+                self.changed.append(nm)
+        os.chdir(self.saved[0])
+        pyrandom.setstate(self.saved[1])
+        np.random.set_state(self.saved[2])
+        np.seterr(**self.saved[3])
+        np.set_printoptions(**self.saved[4])
+        return False
+
+
 class RealRun:
     """everything observed of the real code on one scenario"""
 
@@ -371,6 +555,20 @@ class RealRun:
         self.ref = paths[3] if paths is not None and len(paths) > 3 else None
         self.w_ref = None
         self.skipped = None
+        # devices
+        self.copies = sc.dev.get("copies") or {}
+        self.env = bool(sc.dev.get("env"))
+        self.env_changed = []
+        self.abs_paths = [x for x in (self.path, self.out1, self.out2, self.ref) if x]
+        self.cwd = os.path.dirname(self.path)
+        if self.env:
+            # bare relative names; only paths that live in the directory we chdir into
+            if all(os.path.dirname(x) == self.cwd for x in self.abs_paths):
+                self.path, self.out1, self.out2 = (os.path.basename(x) for x in (self.path, self.out1, self.out2))
+                self.ref = os.path.basename(self.ref) if self.ref else None
+            else:
+                self.env = False
+
         self.keep = None          # line numbers kept by the constructor filters (reference semantics)
         self.dops = []            # driver encoding of the method history
         self.origins = None       # ghost: file index of every held event ([] = placeholder)
@@ -380,16 +578,26 @@ class RealRun:
         self.state = self.w = self.rr = self.w2 = None
         self.obj = self.obj2 = None
 
+    def act(self, name):
+        """one action (load / run_ops / do_write / do_reread / do_rewrite) under the environment guard"""
+        g = EnvGuard(self.env, self.cwd)
+        try:
+            with g:
+                getattr(self, name)()
+        finally:
+            for c in g.changed:
+                self.env_changed.append(f"{c} (during {name})")
+
     def cleanup(self):
         if not self.own_paths:
             return
-        for p in (self.path, self.out1, self.out2):
+        for p in self.abs_paths:
             if os.path.exists(p):
                 os.unlink(p)
 
     def load(self):
         sc, spec = self.sc, self.sc.spec
-        with open(self.path, "w", newline="") as f:
+        with open(self.path, "w", newline="", encoding="utf-8") as f:
             f.write(spec.text())
         kw = {}
         if sc.events is not None:
@@ -414,7 +622,7 @@ class RealRun:
             if not origins:
                 self.ctor_removed_all = True
         self.origins = origins
-        self.obj = open_obj(spec, self.path, **kw)
+        self.obj = variant(open_obj(spec, self.path, **kw), self.copies.get("load"))
 
     def run_ops(self):
         sc, spec, obj = self.sc, self.sc.spec, self.obj
@@ -431,17 +639,18 @@ class RealRun:
                     if not new:
                         self.placeholder = True
             else:
-                want = pmodel.ref_filter(name, args, evs)
+                want = pmodel.ref_filter(name, ref_args(args), evs)
                 self.dops.append("p:" + ",".join(str(self.k2l[key_of(spec, p)]) for ev in want for p in ev))
-            getattr(obj, name)(*args)
+            getattr(obj, name)(*real_args(args))
 
     def do_write(self):
+        self.obj = variant(self.obj, self.copies.get("write"))
         spec, obj = self.sc.spec, self.obj
         self.state = state_str(spec, obj, self.k2l)
         if self.ref is not None:
             try:
                 obj.print_particle_lists_to_file(self.ref)
-                with open(self.ref, newline="") as f:
+                with open(self.ref, newline="", encoding="utf-8") as f:
                     self.w_ref = f.read()
             except Exception as e:
                 self.w_ref = e
@@ -452,7 +661,7 @@ class RealRun:
         except Exception as e:
             self.w = e
             return
-        with open(self.out1, newline="") as f:
+        with open(self.out1, newline="", encoding="utf-8") as f:
             self.w = f.read()
 
     def do_reread(self):
@@ -460,7 +669,7 @@ class RealRun:
             return
         spec = self.sc.spec
         try:
-            self.obj2 = open_obj(spec, self.out1)
+            self.obj2 = variant(open_obj(spec, self.out1), self.copies.get("reread"))
         except Exception as e:
             self.rr = e
             return
@@ -472,15 +681,15 @@ class RealRun:
             return
         try:
             self.obj2.print_particle_lists_to_file(self.out2)
-            with open(self.out2, newline="") as f:
+            with open(self.out2, newline="", encoding="utf-8") as f:
                 self.w2 = f.read()
         except Exception as e:
             self.w2 = e
 
     def write_cycle(self):
-        self.do_write()
-        self.do_reread()
-        self.do_rewrite()
+        self.act("do_write")
+        self.act("do_reread")
+        self.act("do_rewrite")
 
     def answer(self):
         """the driver's answer format"""
@@ -500,12 +709,12 @@ class RealRun:
 def real_run(sc):
     r = RealRun(sc)
     try:
-        r.load()
+        r.act("load")
     except Exception as e:
         r.cleanup()
         raise Skip(f"load raised {type(e).__name__}")
     try:
-        r.run_ops()
+        r.act("run_ops")
     except Skip:
         r.cleanup()
         raise
@@ -667,6 +876,10 @@ def build_session(rng, scenarios, reuse=0.5, alias=0.25):
     return b.session
 
 
+def absout(r):
+    return r.abs_paths[1]
+
+
 def run_session(session):
     """executes the actions; returns one RealRun per step (`.skipped` set when its load / filter history raised)"""
     d = tempfile.mkdtemp(prefix="ses_", dir=tmpdir())
@@ -685,30 +898,30 @@ def run_session(session):
                 continue
             if kind == "load":
                 try:
-                    r.load()
+                    r.act("load")
                 except Exception as e:
                     r.skipped = f"load raised {type(e).__name__}"
                     continue
                 try:
-                    r.run_ops()
+                    r.act("run_ops")
                 except Exception as e:
                     r.skipped = f"filter raised {type(e).__name__}"
             elif kind == "write":
-                if tainted.get(r.path, i) != i:
+                if tainted.get(r.abs_paths[0], i) != i:
                     # its source path was overwritten (by another object of the session) with a file that holds no
                     # event / cannot be read: whatever the writer copies from there is not this object's business
                     r.skipped = "source path overwritten with an unreadable file"
                     continue
-                r.do_write()
-                tainted.pop(r.out1, None)
+                r.act("do_write")
+                tainted.pop(absout(r), None)
                 if isinstance(r.w, Exception):
-                    tainted[r.out1] = i
+                    tainted[absout(r)] = i
             elif kind == "reread":
-                r.do_reread()
+                r.act("do_reread")
                 if isinstance(r.rr, Exception):
-                    tainted[r.out1] = i
+                    tainted[absout(r)] = i
             elif kind == "rewrite":
-                r.do_rewrite()
+                r.act("do_rewrite")
     finally:
         shutil.rmtree(d, ignore_errors=True)
     return runs
@@ -882,7 +1095,8 @@ def driver_line(sc, r):
     kind = "oscar" if not spec.is_jetscape() else spec.kind
     keep = "-" if r.keep is None else "k:" + ",".join(str(x) for x in r.keep)
     ops = "+".join(r.dops) if r.dops else "-"
-    return "\t".join(["write", kind, rmodel.sel_enc(sc.events), keep, ops, pt, ft, common.hexs(spec.text())]), ptab, ftab
+    text = spec.model_text() if hasattr(spec, "model_text") else spec.text()
+    return "\t".join(["write", kind, rmodel.sel_enc(sc.events), keep, ops, pt, ft, common.hexs(text)]), ptab, ftab
 
 
 def strip_obs(ans):
@@ -910,16 +1124,28 @@ def correspond(ctx):
                 "content (write, read, overwrite, read; input path whose content changed; Oscar and JETSCAPE on one path) and "
                 "the round trips of 1-4 objects are interleaved; a quarter of the objects are written over a SOURCE path (their "
                 "own = in-place update, or that of another live object on a sibling file which is written afterwards), after "
-                "a reference write of the same object to a fresh path with which the bytes must agree; header version, sigmaGen "
-                "and impact parameters differ from "
+                "a reference write of the same object to a fresh path with which the bytes must agree; devices that must not "
+                "change anything observable: 30% of the objects are replaced by copy.copy / copy.deepcopy / pickle round trips "
+                "after loading, before writing, after reading back; 25% of the cases run every call with cwd = the files' "
+                "directory and bare relative names, non-default numpy print options, np.seterr(all='warn'), advanced random / "
+                "np.random states (and every call must leave cwd, np.geterr() and both random states as found); 12% each CRLF "
+                "line ends, non-ASCII free text, trailing blanks on free-text lines; one-shot iterables as filter arguments "
+                "where the probe shows they are accepted (else the rejection is asserted); impact parameters also as plain "
+                "integers equal to event numbers; header version, sigmaGen and impact parameters differ from "
                 "file to file; non-trivial = selection, "
                 "constructor filters or at least one filter method; distinct by (file text, events=, filters, history)")
     ctx.assumptions.append("float()/int() and '%g'/'%.9g'/'%d' are parameters of the model (tables supplied by Python for "
                            "every token/value of a case); their contracts H_int, H_idem, H_prec are checked on every supplied "
                            "value and on a sweep of random doubles")
+    ctx.assumptions.append("CRLF files: the model reads the text as Python's universal-newline layer delivers it (\\r\\n -> "
+                           "\\n); files are UTF-8 (the interpreter runs in UTF-8 mode). Trailing blanks on particle and end "
+                           "lines, generators / object arrays as filter arguments and events= given as list / numpy integer "
+                           "are rejected by the clean code (probed per run) and are not inputs of the property")
     ctx.assumptions.append("classification lemma (the loaders' substring tests and token splits on a written line are those of "
                            "its kind) is NOT proved: the driver evaluates `analyse` on the bytes of every written file and "
                            "checks the hypotheses `obsKind` line by line")
+    for key, what, sc in probe(ctx):
+        ctx.brk("correspondence-broken", what, case=dict(scenario=sc.to_json()))
     cases = []
     for d in corpus():
         if "scenario" in d["input"]:
@@ -1040,6 +1266,8 @@ def oracle(sc, r):
     cls = sc.cls
     sit = situation(sc, r)
     key = lambda sym: f"{cls}:{sit}:{sym}"
+    if r.env_changed:
+        return key("global-state-changed"), "a call left a changed global state behind: " + ", ".join(r.env_changed)
     if isinstance(r.w, Exception):
         return key("write-raises-" + type(r.w).__name__), f"print_particle_lists_to_file raised {type(r.w).__name__}: {r.w}"
     if r.w_ref is not None:
@@ -1146,7 +1374,7 @@ def shrink(sc, key):
     while changed:
         changed = False
         for i in range(len(cur.ops)):
-            c = Scenario(cur.spec, cur.events, cur.ctor, cur.ops[:i] + cur.ops[i + 1:])
+            c = cur.replace(ops=cur.ops[:i] + cur.ops[i + 1:])
             if fails(c):
                 cur, changed = c, True
                 break
@@ -1154,7 +1382,7 @@ def shrink(sc, key):
             continue
         if cur.ctor is not None:
             for cand in ([None] if len(cur.ctor) <= 1 else [cur.ctor[:i] + cur.ctor[i + 1:] for i in range(len(cur.ctor))]):
-                c = Scenario(cur.spec, cur.events, cand, cur.ops)
+                c = cur.replace(ctor=cand)
                 if fails(c):
                     cur, changed = c, True
                     break
@@ -1181,9 +1409,8 @@ def shrink(sc, key):
                     continue
                 if i < ev:
                     ev -= 1
-            ns = rmodel.FileSpec(s.kind, s.cols, evs, impacts=imps, tab_headers=s.tab_headers, trailing_nl=s.trailing_nl,
-                                 sigma=s.sigma)
-            c = Scenario(ns, ev, cur.ctor, cur.ops)
+            ns = as_spec6(s).clone(events=evs, impacts=imps)
+            c = cur.replace(spec=ns, events=ev)
             if fails(c):
                 cur, changed = c, True
                 break
@@ -1193,9 +1420,8 @@ def shrink(sc, key):
             for j in range(len(evn)):
                 evs = [list(e) for e in s.events]
                 del evs[i][j]
-                ns = rmodel.FileSpec(s.kind, s.cols, evs, impacts=s.impacts, tab_headers=s.tab_headers,
-                                     trailing_nl=s.trailing_nl, sigma=s.sigma)
-                c = Scenario(ns, cur.events, cur.ctor, cur.ops)
+                ns = as_spec6(s).clone(events=evs)
+                c = cur.replace(spec=ns)
                 if fails(c):
                     cur, changed = c, True
                     break
@@ -1235,18 +1461,88 @@ def targeted(rng):
     return out
 
 
+def probe(ctx):
+    """asks the tree under test, once per run, which of the new input classes it accepts.
+    * one-shot iterables (generator, iter(list), map) and numpy object arrays as the argument of a filter that takes "a
+      list": either rejected with an exception, or the result is that of the list — never silently something else
+      (returns violations); accepted kinds are then used in the histories;
+    * UTF-8 (non-ASCII) text in the free-text parts of a file: used only if a file with it loads."""
+    ITER_OK.clear()
+    TEXT_OK.clear()
+    bad = []
+    prng = pyrandom.Random(7)
+    for kind in ("oscar2013", "jetscape"):
+        spec = as_spec6(rmodel.gen_spec(prng, kinds=[kind], nev=3, maxpart=4))
+        for ev in spec.events:           # make sure the filter has something to keep and to drop in EVERY event
+            for j, row in enumerate(ev):
+                row[spec.cols.index("pdg")] = "211" if j % 2 == 0 else "2212"
+        base = Scenario(spec, None, None, [("particle_species", ([211],))])
+        try:
+            r0 = real_run(base)
+        except Skip:
+            continue
+        want = r0.state
+        r0.cleanup()
+        for it in ("gen", "iter", "map", "objarray"):
+            sc = Scenario(spec, None, None, [("particle_species", (OneShot(it, [211]),))])
+            try:
+                r = real_run(sc)
+            except Skip as e:
+                ctx.count(f"probe/{kind}/{it}/rejected")
+                continue
+            got = r.state
+            r.cleanup()
+            if got == want:
+                ctx.count(f"probe/{kind}/{it}/accepted")
+                if it not in ITER_OK:
+                    ITER_OK.append(it)
+            else:
+                bad.append((f"{sc.cls}:one-shot-argument:silently-different",
+                            f"particle_species({it} of [211]) is neither rejected nor treated like the list [211]: state "
+                            f"`{got}` instead of `{want}`", sc))
+    for kind in ("oscar2013", "jetscape"):
+        spec = as_spec6(rmodel.gen_spec(prng, kinds=[kind], nev=2))
+        spec.nonascii = True
+        try:
+            r = real_run(Scenario(spec))
+            ok = not isinstance(r.w, Exception) and not isinstance(r.rr, Exception)
+            r.cleanup()
+        except Skip:
+            ok = False
+        TEXT_OK["nonascii"] = TEXT_OK.get("nonascii", True) and ok
+    ctx.cov["probe"] = dict(one_shot_iterables_accepted=list(ITER_OK), nonascii_text_accepted=TEXT_OK.get("nonascii"))
+    return bad
+
+
 def report(ctx, sc, res, seen, ses=None, k=None):
     """a failing step: is it the scenario alone (fresh paths), or only the sequence?"""
     alone, _ = oracle_scenario(sc)
     if alone is not None:
-        if alone[0] in seen:
+        # does it need one of the devices (copies / environment / text / one-shot iterables)?
+        key, needed = alone[0], []
+        if sc.devices():
+            plain, _ = oracle_scenario(sc.plain())
+            if plain is None or plain[0] != alone[0]:
+                cur = sc
+                for dname in sc.devices():
+                    c = cur.without(dname)
+                    rr, _ = oracle_scenario(c)
+                    if rr is not None and rr[0] == alone[0]:
+                        cur = c
+                sc, needed = cur, cur.devices()
+                cls, _, sym = alone[0].split(":", 2)
+                key = f"{cls}:with-{'+'.join(needed)}:{sym}"
+            else:
+                sc = sc.plain()
+        if key in seen:
             return
-        seen.add(alone[0])
+        seen.add(key)
         small = shrink(sc, alone[0])
         res2, _ = oracle_scenario(small)
         res2 = res2 or alone
-        ctx.violation(res2[0], res2[1], dict(input=dict(scenario=small.to_json(), describe=small.describe()),
-                                             how_to_replay="./check C06 --replay <this file>"))
+        what = res2[1] if not needed else f"only with {' + '.join(needed)} (the same scenario without is fine): {res2[1]}"
+        ctx.violation(key, what, dict(input=dict(scenario=small.to_json(), describe=small.describe()),
+                                      how_to_replay="./check C06 --replay <this file>"))
         return
     cls, _, sym = res[0].split(":", 2)
     key = f"{cls}:sequence:{sym}"
@@ -1267,6 +1563,11 @@ def search(ctx, budget_s):
     t0 = time.time()
     n = 0
     seen = set()
+    for key, what, sc in probe(ctx):
+        if key not in seen:
+            seen.add(key)
+            ctx.violation(key, what, dict(input=dict(scenario=sc.to_json(), describe=sc.describe()),
+                                          how_to_replay="./check C06 --replay <this file>"))
     first = [Scenario.from_json(d["input"]["scenario"]) for d in corpus() if "scenario" in d["input"]] + targeted(rng)
     sessions = [Session.from_json(d["input"]["session"]) for d in corpus() if "session" in d["input"]]
     sessions += path_sequences(rng)
